@@ -448,7 +448,7 @@ def parse_vc(path):
                     sect = cur.onerr
                 elif kw == 'body':
                     sect = cur.body_prefix
-                elif kw in ('before', 'after'):
+                elif kw in ('before', 'after', 'beforelast', 'afterlast'):
                     lst = []
                     cur.ats.append((arg, kw, lst))
                     sect = lst
@@ -615,6 +615,9 @@ def splice(lines, contracts, injections, counts, report, externals=()):
                 continue
             seg = text[f.open:f.close]
             hits = [x for x in re.finditer(rx, seg)]
+            if where.endswith('last') and hits:
+                hits = hits[-1:]
+                where = where[:-4]
             if len(hits) != 1:
                 lost.append('fn %s: anchor %r matched %d times' % (key, rx, len(hits)))
                 continue
